@@ -50,7 +50,7 @@ def specOnInit (h : Hierarchy) (c : Cls) (n : Name) : Bool :=
   | none => false
 
 /-- the assignments an operation performs, in order -/
-def simpleAssignments : Simple → List (Key × Int)
+def simpleAssignments : SimpleOp → List (Key × Int)
   | .set k v => [(k, v)]
   | .update kvs => kvs.map (fun kv => (⟨kv.1, "value"⟩, kv.2))
 
